@@ -474,9 +474,10 @@ pub fn campaign(run: &mut crate::runner::Run, target: &str, runs: u64) {
             .arg(&corpus)
             .arg(format!("-runs={runs}"))
             .arg(format!("-seed={seed}"))
-            .args(["-len_control=0", "-max_len=2048", "-timeout=120", "-print_final_stats=1", "-rss_limit_mb=4096"])
+            .args(["-len_control=0", "-max_len=2048", "-timeout=120", "-print_final_stats=1", "-rss_limit_mb=12288"])
             .arg(format!("-artifact_prefix={}/", dir.display()))
             .env("RSV_VERIF_DIR", verif_dir())
+            .env("ASAN_OPTIONS", "quarantine_size_mb=32:malloc_context_size=2:detect_leaks=0")
             .stdout(std::process::Stdio::null())
             .stderr(std::process::Stdio::piped())
             .spawn();
